@@ -12,13 +12,13 @@ import (
 // (`for i, x := range s`, `for i := range s`, `for i := 0; i < len(s); i++`, `for i := 0; len(s) > i; i += 1` ...).
 type CountedLoop struct {
 	members map[*ssa.BasicBlock]bool // blocks of the natural loop (lazily computed)
-	Header *ssa.BasicBlock
-	Phi    *ssa.Phi  // the loop variable in the header
-	D      int64     // the index visited by an iteration is Phi + D (1 for go/ssa's rotated range loops, 0 otherwise)
-	Over   ssa.Value // the slice (or string/array) whose length bounds the loop
-	LenAt  *ssa.Call // the len() call of the bound
-	Body   *ssa.BasicBlock
-	Exit   *ssa.BasicBlock
+	Header  *ssa.BasicBlock
+	Phi     *ssa.Phi  // the loop variable in the header
+	D       int64     // the index visited by an iteration is Phi + D (1 for go/ssa's rotated range loops, 0 otherwise)
+	Over    ssa.Value // the slice (or string/array) whose length bounds the loop
+	LenAt   *ssa.Call // the len() call of the bound
+	Body    *ssa.BasicBlock
+	Exit    *ssa.BasicBlock
 }
 
 // Offset: v = Phi + k for the loop's variable (through +/- constants and conversions).
